@@ -1,0 +1,6 @@
+//go:build !verif
+
+package value
+
+// verifDiscard is a hook of the verification harness (build tag "verif"). Without the tag it does nothing.
+func verifDiscard(_ Primary) bool { return false }
